@@ -366,6 +366,9 @@ where
                     );
                     parse_stack.push_state(context, state);
                     builder.shift_action(context, next_token);
+                    // The layout was consumed by the shifted token. The layout
+                    // parser sets it only when it finds something.
+                    context.set_layout_ahead(None);
 
                     log!(
                         "{} at {:?} [{:?}]:\n{}\n",
